@@ -299,6 +299,10 @@ pub fn corpus() -> Vec<Case> {
     {
         v.push(Case::Line(l.into()));
     }
+    // `print` with no argument: documented default PC (was MissingArgument)
+    for l in ["print", "p", "PRINT", "print ^", "print  x"] {
+        v.push(Case::Line(l.into()));
+    }
     // K1: sudo
     for l in ["sudo", "sudo rm -rf", "SUDO", "sudo\tx", "sudox"] {
         v.push(Case::Line(l.into()));
